@@ -353,6 +353,27 @@ def run_ids(pid, tier, seed, res, only=None):
             continue
         seq_, got_, names_ = call_site_ids(d)
         res.evaluations += 1
+        # K-attrs: every recorded call of a decorated function carries the attributes the function was declared
+        # with (priority, is_sequential, resource), also when it was recorded inside a nested DAG
+        decl = {}
+
+        def collect(q):
+            for f_ in q["funs"]:
+                decl["f%d" % f_["fid"]] = f_
+            for s_ in q["subs"]:
+                collect(s_)
+        collect(prog)
+        for nid_, xn_ in d.exec_nodes.items():
+            qn_ = getattr(getattr(xn_, "exec_function", None), "__qualname__", "")
+            f_ = decl.get(qn_)
+            if f_ is None or type(xn_).__name__ in ("ArgExecNode", "ReturnExecNode"):
+                continue
+            for attr_, props_ in (("priority", ("C07", "C06")), ("is_sequential", ("C05",)), ("resource", ("C04",))):
+                have = getattr(xn_, attr_)
+                have = have.value if attr_ == "resource" else have
+                if have != f_[attr_]:
+                    for p_ in props_:
+                        res.hit(p_, "monitor", "node %s records a call of a function declared with %s=%r, but carries %s=%r" % (nid_, attr_, f_[attr_], attr_, have), dict(engine="kids", prog=prog, kind="monitor"))
         if len(seq_) > len(set(seq_)):
             res.distinct.add(hashlib.sha1(json.dumps(prog, sort_keys=True).encode()).hexdigest()[:12])
         ids_all = [k for k, x in d.exec_nodes.items()]
